@@ -1,1 +1,439 @@
-//! (reference for magma: to be written)
+//! GOST R 34.12-2015 "Magma" (64-bit block, section 5 of the standard; same text as RFC 8891 section 4) and, by
+//! parameterising the nonlinear bijection over a set of eight 4-bit substitutions, the 32-round GOST 28147-89
+//! network in the big-endian word convention of GOST R 34.12-2015 (RFC 8891 appendix B: Magma is GOST 28147-89
+//! with the fixed set id-tc26-gost-28147-param-Z).
+//!
+//! Structure follows the standard literally:
+//!   5.1  (RFC 4.1)  pi'_0 .. pi'_7                      -> `Pi`, `PI_TC26`
+//!   5.2  (RFC 4.2)  t, g[k], G[k], G*[k]                -> `t`, `g`, `big_g`, `big_g_star`
+//!   5.3  (RFC 4.3)  K_1 .. K_32                         -> `key_words`, `round_keys`, `key_schedule`
+//!   5.4  (RFC 4.4)  E = G*[K32] G[K31] .. G[K1]         -> `encrypt_rk` (and wrappers)
+//!   5.5  (RFC 4.5)  D = G*[K1]  G[K2]  .. G[K32]        -> `decrypt_rk` (and wrappers)
+//!
+//! Conventions of the standard: a 32-bit vector a = a_7||..||a_0 is read as an integer with a_0 the LEAST significant
+//! nibble, and pi_i acts on a_i; a 64-bit block a = a_1||a_0 with a_1 the most significant 32 bits; the key
+//! K = k_255||..||k_0 with K_1 = k_255..k_224 (the first four key bytes, most significant first).
+//!
+//! The id-tc26-gost-28147-param-Z set is typed from section 5.1.1 of the standard / RFC 8891 section 4.1 (anchored by
+//! the A.2 vectors for t and g below and by the full example).  The five older sets of RFC 4357 (section 11.2:
+//! id-Gost28147-89-TestParamSet, id-Gost28147-89-CryptoPro-{A,B,C,D}-ParamSet) are 128 entries each and cannot be
+//! computed from a definition: they are a SNAPSHOT OF THE PINNED TREE (/repo/magma/src/sboxes.rs), row i = pi_i; no
+//! published known-answer vector for those five sets is included here (none was available offline), so for them the
+//! contracts establish "the 32-round network over exactly the bundled table", not "the table equals RFC 4357".
+
+/// A set of eight 4-bit substitutions pi_0 .. pi_7 (pi_i acts on nibble i, counted from the least significant).
+pub type Pi = [[u8; 16]; 8];
+
+/// GOST R 34.12-2015 section 5.1.1 / RFC 8891 section 4.1 (id-tc26-gost-28147-param-Z).
+pub const PI_TC26: Pi = [
+    [12, 4, 6, 2, 10, 5, 11, 9, 14, 8, 13, 7, 0, 3, 15, 1],
+    [6, 8, 2, 3, 9, 10, 5, 12, 1, 14, 4, 7, 11, 13, 0, 15],
+    [11, 3, 5, 8, 2, 15, 10, 13, 14, 1, 7, 4, 12, 9, 6, 0],
+    [12, 8, 2, 1, 13, 4, 15, 6, 7, 0, 10, 5, 3, 14, 9, 11],
+    [7, 15, 5, 10, 8, 1, 6, 13, 0, 9, 3, 14, 11, 4, 2, 12],
+    [5, 13, 15, 6, 9, 2, 12, 10, 11, 7, 8, 1, 4, 3, 14, 0],
+    [8, 14, 2, 5, 6, 9, 1, 12, 15, 4, 11, 0, 13, 10, 3, 7],
+    [1, 7, 14, 13, 0, 5, 8, 3, 4, 15, 10, 6, 9, 12, 11, 2],
+];
+
+/// id-Gost28147-89-TestParamSet (RFC 4357 section 11.2) — snapshot of the pinned tree.
+pub const PI_TEST: Pi = [
+    [4, 10, 9, 2, 13, 8, 0, 14, 6, 11, 1, 12, 7, 15, 5, 3],
+    [14, 11, 4, 12, 6, 13, 15, 10, 2, 3, 8, 1, 0, 7, 5, 9],
+    [5, 8, 1, 13, 10, 3, 4, 2, 14, 15, 12, 7, 6, 0, 9, 11],
+    [7, 13, 10, 1, 0, 8, 9, 15, 14, 4, 6, 12, 11, 2, 5, 3],
+    [6, 12, 7, 1, 5, 15, 13, 8, 4, 10, 9, 14, 0, 3, 11, 2],
+    [4, 11, 10, 0, 7, 2, 1, 13, 3, 6, 8, 5, 9, 12, 15, 14],
+    [13, 11, 4, 1, 3, 15, 5, 9, 0, 10, 14, 7, 6, 8, 2, 12],
+    [1, 15, 13, 0, 5, 7, 10, 4, 9, 2, 3, 14, 6, 11, 8, 12],
+];
+
+/// id-Gost28147-89-CryptoPro-A-ParamSet (RFC 4357 section 11.2) — snapshot of the pinned tree.
+pub const PI_CRYPTOPRO_A: Pi = [
+    [9, 6, 3, 2, 8, 11, 1, 7, 10, 4, 14, 15, 12, 0, 13, 5],
+    [3, 7, 14, 9, 8, 10, 15, 0, 5, 2, 6, 12, 11, 4, 13, 1],
+    [14, 4, 6, 2, 11, 3, 13, 8, 12, 15, 5, 10, 0, 7, 1, 9],
+    [14, 7, 10, 12, 13, 1, 3, 9, 0, 2, 11, 4, 15, 8, 5, 6],
+    [11, 5, 1, 9, 8, 13, 15, 0, 14, 4, 2, 3, 12, 7, 10, 6],
+    [3, 10, 13, 12, 1, 2, 0, 11, 7, 5, 9, 4, 8, 15, 14, 6],
+    [1, 13, 2, 9, 7, 10, 6, 0, 8, 12, 4, 5, 15, 3, 11, 14],
+    [11, 10, 15, 5, 0, 12, 14, 8, 6, 2, 3, 9, 1, 7, 13, 4],
+];
+
+/// id-Gost28147-89-CryptoPro-B-ParamSet (RFC 4357 section 11.2) — snapshot of the pinned tree.
+pub const PI_CRYPTOPRO_B: Pi = [
+    [8, 4, 11, 1, 3, 5, 0, 9, 2, 14, 10, 12, 13, 6, 7, 15],
+    [0, 1, 2, 10, 4, 13, 5, 12, 9, 7, 3, 15, 11, 8, 6, 14],
+    [14, 12, 0, 10, 9, 2, 13, 11, 7, 5, 8, 15, 3, 6, 1, 4],
+    [7, 5, 0, 13, 11, 6, 1, 2, 3, 10, 12, 15, 4, 14, 9, 8],
+    [2, 7, 12, 15, 9, 5, 10, 11, 1, 4, 0, 13, 6, 8, 14, 3],
+    [8, 3, 2, 6, 4, 13, 14, 11, 12, 1, 7, 15, 10, 0, 9, 5],
+    [5, 2, 10, 11, 9, 1, 12, 3, 7, 4, 13, 0, 6, 15, 8, 14],
+    [0, 4, 11, 14, 8, 3, 7, 1, 10, 2, 9, 6, 15, 13, 5, 12],
+];
+
+/// id-Gost28147-89-CryptoPro-C-ParamSet (RFC 4357 section 11.2) — snapshot of the pinned tree.
+pub const PI_CRYPTOPRO_C: Pi = [
+    [1, 11, 12, 2, 9, 13, 0, 15, 4, 5, 8, 14, 10, 7, 6, 3],
+    [0, 1, 7, 13, 11, 4, 5, 2, 8, 14, 15, 12, 9, 10, 6, 3],
+    [8, 2, 5, 0, 4, 9, 15, 10, 3, 7, 12, 13, 6, 14, 1, 11],
+    [3, 6, 0, 1, 5, 13, 10, 8, 11, 2, 9, 7, 14, 15, 12, 4],
+    [8, 13, 11, 0, 4, 5, 1, 2, 9, 3, 12, 14, 6, 15, 10, 7],
+    [12, 9, 11, 1, 8, 14, 2, 4, 7, 3, 6, 5, 10, 0, 15, 13],
+    [10, 9, 6, 8, 13, 14, 2, 0, 15, 3, 5, 11, 4, 1, 12, 7],
+    [7, 4, 0, 5, 10, 2, 15, 14, 12, 6, 1, 11, 13, 9, 3, 8],
+];
+
+/// id-Gost28147-89-CryptoPro-D-ParamSet (RFC 4357 section 11.2) — snapshot of the pinned tree.
+pub const PI_CRYPTOPRO_D: Pi = [
+    [10, 4, 5, 6, 8, 1, 3, 7, 13, 12, 14, 0, 9, 2, 11, 15],
+    [5, 15, 4, 0, 2, 13, 11, 9, 1, 7, 6, 3, 12, 14, 10, 8],
+    [7, 15, 12, 14, 9, 4, 1, 0, 3, 11, 5, 2, 6, 10, 8, 13],
+    [4, 10, 7, 12, 0, 15, 2, 8, 14, 1, 6, 5, 13, 11, 9, 3],
+    [7, 6, 4, 11, 9, 12, 2, 10, 1, 8, 0, 14, 15, 13, 3, 5],
+    [7, 6, 2, 4, 13, 9, 15, 0, 10, 1, 5, 11, 8, 14, 12, 3],
+    [13, 14, 4, 1, 7, 0, 5, 10, 3, 12, 8, 15, 6, 2, 9, 11],
+    [1, 3, 10, 9, 5, 11, 4, 15, 8, 6, 7, 14, 13, 0, 2, 12],
+];
+
+/// Every entry is a 4-bit value (the domain on which the expansion below and the cipher are defined).
+pub const fn is_nibble_set(pi: &Pi) -> bool {
+    let mut ok = true;
+    let mut i = 0;
+    while i < 8 {
+        let mut j = 0;
+        while j < 16 {
+            ok &= pi[i][j] < 16;
+            j += 1;
+        }
+        i += 1;
+    }
+    ok
+}
+
+/// Every pi_i is a permutation of 0..15 (true of all bundled sets; GOST 28147-89 itself only asks for substitutions).
+pub const fn is_permutation_set(pi: &Pi) -> bool {
+    let mut ok = true;
+    let mut i = 0;
+    while i < 8 {
+        let mut seen: u32 = 0;
+        let mut j = 0;
+        while j < 16 {
+            seen |= 1u32 << (pi[i][j] & 31);
+            j += 1;
+        }
+        ok &= seen == 0xffff;
+        i += 1;
+    }
+    ok
+}
+
+/// 5.2: t(a_7||..||a_0) = pi_7(a_7)||..||pi_0(a_0).
+pub const fn t(pi: &Pi, a: u32) -> u32 {
+    let mut out = 0u32;
+    let mut i = 0;
+    while i < 8 {
+        let ai = ((a >> (4 * i)) & 0xf) as usize;
+        out |= ((pi[i][ai] & 0xf) as u32) << (4 * i);
+        i += 1;
+    }
+    out
+}
+
+/// 5.2: g[k](a) = (t(Vec32(Int32(a) [+] Int32(k)))) <<< 11, [+] addition modulo 2^32.
+pub const fn g(pi: &Pi, k: u32, a: u32) -> u32 {
+    t(pi, a.wrapping_add(k)).rotate_left(11)
+}
+
+/// 5.2: G[k](a_1, a_0) = (a_0, g[k](a_0) xor a_1).
+pub const fn big_g(pi: &Pi, k: u32, a: (u32, u32)) -> (u32, u32) {
+    (a.1, g(pi, k, a.1) ^ a.0)
+}
+
+/// 5.2: G*[k](a_1, a_0) = (g[k](a_0) xor a_1) || a_0.
+pub const fn big_g_star(pi: &Pi, k: u32, a: (u32, u32)) -> u64 {
+    (((g(pi, k, a.1) ^ a.0) as u64) << 32) | a.1 as u64
+}
+
+/// 5.3: K_1 .. K_8: K_i = k_{255-32(i-1)} .. k_{224-32(i-1)}, i.e. the i-th group of four key bytes, most significant first.
+pub const fn key_words(key: &[u8; 32]) -> [u32; 8] {
+    let mut kw = [0u32; 8];
+    let mut i = 0;
+    while i < 8 {
+        let mut w = 0u32;
+        let mut j = 0;
+        while j < 4 {
+            w = (w << 8) | key[4 * i + j] as u32;
+            j += 1;
+        }
+        kw[i] = w;
+        i += 1;
+    }
+    kw
+}
+
+/// 5.3: K_{i+8} = K_i, K_{i+16} = K_i, K_{i+24} = K_{9-i}, i = 1..8.  `rk[j]` is K_{j+1}.
+pub const fn round_keys(kw: &[u32; 8]) -> [u32; 32] {
+    let mut rk = [0u32; 32];
+    let mut i = 1;
+    while i <= 8 {
+        rk[i - 1] = kw[i - 1];
+        rk[i + 8 - 1] = kw[i - 1];
+        rk[i + 16 - 1] = kw[i - 1];
+        rk[i + 24 - 1] = kw[9 - i - 1];
+        i += 1;
+    }
+    rk
+}
+
+pub const fn key_schedule(key: &[u8; 32]) -> [u32; 32] {
+    round_keys(&key_words(key))
+}
+
+/// 5.4: E(a) = G*[K_32] G[K_31] .. G[K_2] G[K_1] (a_1, a_0), a = a_1||a_0.
+pub const fn encrypt_rk(pi: &Pi, rk: &[u32; 32], a: u64) -> u64 {
+    let mut v = ((a >> 32) as u32, a as u32);
+    let mut i = 1;
+    while i <= 31 {
+        v = big_g(pi, rk[i - 1], v);
+        i += 1;
+    }
+    big_g_star(pi, rk[31], v)
+}
+
+/// 5.5: D(a) = G*[K_1] G[K_2] .. G[K_31] G[K_32] (a_1, a_0).
+pub const fn decrypt_rk(pi: &Pi, rk: &[u32; 32], a: u64) -> u64 {
+    let mut v = ((a >> 32) as u32, a as u32);
+    let mut i = 32;
+    while i >= 2 {
+        v = big_g(pi, rk[i - 1], v);
+        i -= 1;
+    }
+    big_g_star(pi, rk[0], v)
+}
+
+/// E / D from the eight key words K_1..K_8.
+pub const fn encrypt_words(pi: &Pi, kw: &[u32; 8], a: u64) -> u64 {
+    encrypt_rk(pi, &round_keys(kw), a)
+}
+pub const fn decrypt_words(pi: &Pi, kw: &[u32; 8], a: u64) -> u64 {
+    decrypt_rk(pi, &round_keys(kw), a)
+}
+
+/// E / D from the 256-bit key.
+pub const fn encrypt(pi: &Pi, key: &[u8; 32], a: u64) -> u64 {
+    encrypt_rk(pi, &key_schedule(key), a)
+}
+pub const fn decrypt(pi: &Pi, key: &[u8; 32], a: u64) -> u64 {
+    decrypt_rk(pi, &key_schedule(key), a)
+}
+
+/// Byte-string forms: the block a = a_63..a_0 is the 8 bytes most significant first.
+pub const fn encrypt_bytes(pi: &Pi, key: &[u8; 32], block: &[u8; 8]) -> [u8; 8] {
+    encrypt(pi, key, u64::from_be_bytes(*block)).to_be_bytes()
+}
+pub const fn decrypt_bytes(pi: &Pi, key: &[u8; 32], block: &[u8; 8]) -> [u8; 8] {
+    decrypt(pi, key, u64::from_be_bytes(*block)).to_be_bytes()
+}
+
+/// Magma proper (GOST R 34.12-2015): the network over id-tc26-gost-28147-param-Z.
+pub const fn magma_encrypt(key: &[u8; 32], a: u64) -> u64 {
+    encrypt(&PI_TC26, key, a)
+}
+pub const fn magma_decrypt(key: &[u8; 32], a: u64) -> u64 {
+    decrypt(&PI_TC26, key, a)
+}
+
+/// Nibble-pair expansion (specification of the real crate's `gen_exp_sbox`; not part of the standard):
+/// table i maps the byte (hi||lo) to pi_{2i+1}(hi)||pi_{2i}(lo), so that byte i of t(a) is exp[i][byte i of a].
+/// Defined for sets of 4-bit entries (`is_nibble_set`).
+pub const fn expand_sbox(pi: &Pi) -> [[u8; 256]; 4] {
+    let mut out = [[0u8; 256]; 4];
+    let mut i = 0;
+    while i < 4 {
+        let mut b = 0;
+        while b < 256 {
+            out[i][b] = expand_entry(pi, i, b as u8);
+            b += 1;
+        }
+        i += 1;
+    }
+    out
+}
+
+/// One entry of the expansion: pi_{2i+1}(high nibble of b) || pi_{2i}(low nibble of b).
+pub const fn expand_entry(pi: &Pi, i: usize, b: u8) -> u8 {
+    ((pi[2 * i + 1][(b >> 4) as usize] & 0xf) << 4) | (pi[2 * i][(b & 0xf) as usize] & 0xf)
+}
+
+/// t computed through the expansion (byte-wise); equal to `t` (unit test + contract lemma).
+pub const fn t_expanded(exp: &[[u8; 256]; 4], a: u32) -> u32 {
+    let mut out = 0u32;
+    let mut i = 0;
+    while i < 4 {
+        out |= (exp[i][((a >> (8 * i)) & 0xff) as usize] as u32) << (8 * i);
+        i += 1;
+    }
+    out
+}
+
+#[cfg(test)]
+mod tests {
+    use super::*;
+
+    // GOST R 34.12-2015 appendix A.2 / RFC 8891 appendix A
+    const KEY: [u8; 32] = [
+        0xff, 0xee, 0xdd, 0xcc, 0xbb, 0xaa, 0x99, 0x88, 0x77, 0x66, 0x55, 0x44, 0x33, 0x22, 0x11, 0x00, 0xf0, 0xf1, 0xf2, 0xf3,
+        0xf4, 0xf5, 0xf6, 0xf7, 0xf8, 0xf9, 0xfa, 0xfb, 0xfc, 0xfd, 0xfe, 0xff,
+    ];
+    const PT: u64 = 0xfedcba9876543210;
+    const CT: u64 = 0x4ee901e5c2d8ca3d;
+
+    #[test]
+    fn a21_transformation_t() {
+        assert_eq!(t(&PI_TC26, 0xfdb97531), 0x2a196f34);
+        assert_eq!(t(&PI_TC26, 0x2a196f34), 0xebd9f03a);
+        assert_eq!(t(&PI_TC26, 0xebd9f03a), 0xb039bb3d);
+        assert_eq!(t(&PI_TC26, 0xb039bb3d), 0x68695433);
+    }
+
+    #[test]
+    fn a22_transformation_g() {
+        assert_eq!(g(&PI_TC26, 0x87654321, 0xfedcba98), 0xfdcbc20c);
+        assert_eq!(g(&PI_TC26, 0xfdcbc20c, 0x87654321), 0x7e791a4b);
+        assert_eq!(g(&PI_TC26, 0x7e791a4b, 0xfdcbc20c), 0xc76549ec);
+        assert_eq!(g(&PI_TC26, 0xc76549ec, 0x7e791a4b), 0x9791c849);
+    }
+
+    #[test]
+    fn a23_key_schedule() {
+        let w: [u32; 8] = [0xffeeddcc, 0xbbaa9988, 0x77665544, 0x33221100, 0xf0f1f2f3, 0xf4f5f6f7, 0xf8f9fafb, 0xfcfdfeff];
+        assert_eq!(key_words(&KEY), w);
+        let rk = key_schedule(&KEY);
+        let expect: [u32; 32] = [
+            0xffeeddcc, 0xbbaa9988, 0x77665544, 0x33221100, 0xf0f1f2f3, 0xf4f5f6f7, 0xf8f9fafb, 0xfcfdfeff, // K1..K8
+            0xffeeddcc, 0xbbaa9988, 0x77665544, 0x33221100, 0xf0f1f2f3, 0xf4f5f6f7, 0xf8f9fafb, 0xfcfdfeff, // K9..K16
+            0xffeeddcc, 0xbbaa9988, 0x77665544, 0x33221100, 0xf0f1f2f3, 0xf4f5f6f7, 0xf8f9fafb, 0xfcfdfeff, // K17..K24
+            0xfcfdfeff, 0xf8f9fafb, 0xf4f5f6f7, 0xf0f1f2f3, 0x33221100, 0x77665544, 0xbbaa9988, 0xffeeddcc, // K25..K32
+        ];
+        assert_eq!(rk, expect);
+    }
+
+    // A.2.4: (a_1, a_0) after G[K_i] .. G[K_1], i = 1..31
+    const TRACE: [(u32, u32); 31] = [
+        (0x76543210, 0x28da3b14),
+        (0x28da3b14, 0xb14337a5),
+        (0xb14337a5, 0x633a7c68),
+        (0x633a7c68, 0xea89c02c),
+        (0xea89c02c, 0x11fe726d),
+        (0x11fe726d, 0xad0310a4),
+        (0xad0310a4, 0x37d97f25),
+        (0x37d97f25, 0x46324615),
+        (0x46324615, 0xce995f2a),
+        (0xce995f2a, 0x93c1f449),
+        (0x93c1f449, 0x4811c7ad),
+        (0x4811c7ad, 0xc4b3edca),
+        (0xc4b3edca, 0x44ca5ce1),
+        (0x44ca5ce1, 0xfef51b68),
+        (0xfef51b68, 0x2098cd86),
+        (0x2098cd86, 0x4f15b0bb),
+        (0x4f15b0bb, 0xe32805bc),
+        (0xe32805bc, 0xe7116722),
+        (0xe7116722, 0x89cadf21),
+        (0x89cadf21, 0xbac8444d),
+        (0xbac8444d, 0x11263a21),
+        (0x11263a21, 0x625434c3),
+        (0x625434c3, 0x8025c0a5),
+        (0x8025c0a5, 0xb0d66514),
+        (0xb0d66514, 0x47b1d5f4),
+        (0x47b1d5f4, 0xc78e6d50),
+        (0xc78e6d50, 0x80251e99),
+        (0x80251e99, 0x2b96eca6),
+        (0x2b96eca6, 0x05ef4401),
+        (0x05ef4401, 0x239a4577),
+        (0x239a4577, 0xc2d8ca3d),
+    ];
+
+    #[test]
+    fn a24_encryption_trace() {
+        let rk = key_schedule(&KEY);
+        let mut v = ((PT >> 32) as u32, PT as u32);
+        assert_eq!(v, (0xfedcba98, 0x76543210));
+        for i in 0..31 {
+            v = big_g(&PI_TC26, rk[i], v);
+            assert_eq!(v, TRACE[i], "after G[K{}]", i + 1);
+        }
+        assert_eq!(big_g_star(&PI_TC26, rk[31], v), CT);
+    }
+
+    #[test]
+    fn a25_decryption_trace() {
+        // A.2.5: (a_1,a_0) = (4ee901e5, c2d8ca3d); G[K32] gives (c2d8ca3d, 239a4577), ... : the encryption trace
+        // backwards with the halves exchanged, finally G*[K1] gives fedcba9876543210.
+        let rk = key_schedule(&KEY);
+        let mut v = ((CT >> 32) as u32, CT as u32);
+        for j in 0..31 {
+            v = big_g(&PI_TC26, rk[31 - j], v);
+            let e = TRACE[30 - j];
+            assert_eq!(v, (e.1, e.0), "after G[K{}]", 32 - j);
+        }
+        assert_eq!(big_g_star(&PI_TC26, rk[0], v), PT);
+    }
+
+    #[test]
+    fn a24_a25_block() {
+        assert_eq!(magma_encrypt(&KEY, PT), CT);
+        assert_eq!(magma_decrypt(&KEY, CT), PT);
+        assert_eq!(encrypt_words(&PI_TC26, &key_words(&KEY), PT), CT);
+        assert_eq!(decrypt_words(&PI_TC26, &key_words(&KEY), CT), PT);
+        assert_eq!(encrypt_bytes(&PI_TC26, &KEY, &PT.to_be_bytes()), CT.to_be_bytes());
+        assert_eq!(decrypt_bytes(&PI_TC26, &KEY, &CT.to_be_bytes()), PT.to_be_bytes());
+    }
+
+    const ALL: [&Pi; 6] = [&PI_TC26, &PI_TEST, &PI_CRYPTOPRO_A, &PI_CRYPTOPRO_B, &PI_CRYPTOPRO_C, &PI_CRYPTOPRO_D];
+
+    #[test]
+    fn bundled_sets_are_permutations() {
+        for pi in ALL {
+            assert!(is_nibble_set(pi));
+            assert!(is_permutation_set(pi));
+        }
+        // the six sets are pairwise different
+        for i in 0..6 {
+            for j in 0..i {
+                assert_ne!(ALL[i], ALL[j]);
+            }
+        }
+    }
+
+    #[test]
+    fn roundtrip_all_sets() {
+        let mut x = PT;
+        for pi in ALL {
+            for _ in 0..50 {
+                let y = encrypt(pi, &KEY, x);
+                assert_eq!(decrypt(pi, &KEY, y), x);
+                assert_eq!(encrypt(pi, &KEY, decrypt(pi, &KEY, x)), x);
+                x = y ^ x.rotate_left(7);
+            }
+        }
+    }
+
+    #[test]
+    fn expansion_agrees_with_t() {
+        for pi in ALL {
+            let e = expand_sbox(pi);
+            let mut a = 0x01234567u32;
+            for _ in 0..2000 {
+                assert_eq!(t_expanded(&e, a), t(pi, a));
+                a = a.wrapping_mul(1664525).wrapping_add(1013904223);
+            }
+            for i in 0..4 {
+                for b in 0..256usize {
+                    assert_eq!(e[i][b] & 0xf, pi[2 * i][b & 15]);
+                    assert_eq!(e[i][b] >> 4, pi[2 * i + 1][b >> 4]);
+                }
+            }
+        }
+    }
+}
